@@ -328,6 +328,33 @@ def add_self_recursive_field(rng, td):
     return f
 
 
+def add_token_only_field(rng, td):
+    """append a field whose type depends on a parameter in a way only the header checks (C12, no type checking) can use: a
+    const parameter as a plain generic argument, an associated-type projection in short and qualified form"""
+    from . import shapes as S
+    if td.kind == "union" or set(td.traits) & {"Copy", "Into", "Deref", "DerefMut"}:
+        return None
+    vs = [v for v in td.variants if v.style != "unit" and v.fields]
+    typarams = [p["name"] for p in td.params if p["kind"] == "ty"]
+    consts = [p["name"] for p in td.params if p["kind"] == "const"]
+    if not vs or not (typarams or consts):
+        return None
+    cands = []
+    for g in typarams:
+        cands += ["%s::Item" % g, "<%s as ::core::iter::Iterator>::Item" % g, "::core::option::Option<%s::Item>" % g,
+                  "::std::boxed::Box<dyn ::core::ops::Fn(%s) -> u8>" % g, "fn(%s) -> u8" % g, "*const %s" % g]
+    for n in consts:
+        cands += ["::verif_rt::Tag<%s>" % n, "[[u8; %s]; 2]" % n]   # (no `{ N }`: the runner cuts impl headers at the first brace)
+    v = rng.choice(vs)
+    if any(f.sem.get(t, {}).get("rank") == ISIZE_MIN + len(v.fields) for f in v.fields for t in ("PartialOrd", "Ord")):
+        return None
+    ty = rng.choice(cands)
+    kind = S.Kind("TokOnly", ty, S.ALLCAPS - {"Copy"}, 1, lambda s, sl, a: "::core::unimplemented!()")
+    f = S.Field("tok_only" if v.style == "named" else None, kind, len(v.fields))
+    v.fields.append(f)
+    return f
+
+
 def fname_for(v, used, rng):
     names = {f.name for f in v.fields}
     for n in FIELD_NAMES + ["z%d" % i for i in range(20)]:
